@@ -50,6 +50,7 @@ type envSpec struct {
 	prefetchEarly bool // start Prefetch before Verify (as fs.Mount does) instead of during the walk
 	evict       bool
 	adopt       bool // emulate the go-fuse bridge: add looked-up children to the parent inode
+	scenario    string // dedicated history scenario (replaces the node class in violation keys)
 	tiny        bool // registry chunk size of a few bytes: minimal workload, no Prefetch/BackgroundFetch
 	risky       bool // configuration known to be able to kill the process: run after the other environments
 }
@@ -58,6 +59,9 @@ func genCase(r *vf.Run, stage uint64, idx int) *tcase {
 	rng := r.RNG(stage, uint64(idx), 1)
 	c := &tcase{stage: stage, idx: idx}
 	c.chunk = rng.Pick(1, 7, 64, 64, 512, 512, 4096, 4096, 65536)
+	if stage == 4 && (c.chunk < 64 || c.chunk > 4096) {
+		c.chunk = 512 // L3 stage: moderate sizes only
+	}
 	if stage == 2 && c.chunk == 65536 {
 		// race build: every allocation of a large buffer also clears its shadow memory; a
 		// 64 KiB-chunk case costs minutes there and adds nothing race-wise
@@ -93,29 +97,7 @@ func genCase(r *vf.Run, stage uint64, idx int) *tcase {
 				ModTime: 1600000000, Size: sz, ContentID: rng.U64() | 1})
 		}
 	}
-	c.model = gen.Model(c.ents)
-	c.tarBytes = gen.TarBytes(c.ents)
-	c.paths = c.model.Paths()
-	c.explicitCount = map[string]int{}
-	for _, e := range c.ents {
-		if e.Type == tar.TypeDir {
-			c.explicitCount[gen.Clean(e.Name)]++
-			if gen.Clean(e.Name) == "" {
-				c.rootEntry = true
-			}
-		}
-	}
-	for _, p := range c.paths {
-		n := c.model.Nodes[p]
-		switch n.Type {
-		case tar.TypeDir:
-			c.dirs = append(c.dirs, p)
-		case tar.TypeReg:
-			c.files = append(c.files, p)
-		case tar.TypeSymlink:
-			c.symlinks = append(c.symlinks, p)
-		}
-	}
+	c.index()
 	// build options
 	c.bopts = blob.RandomOpts(rng, c.chunk)
 	if c.bopts.Compression == "zstdchunked" && rng.Bool() {
@@ -163,6 +145,34 @@ func genCase(r *vf.Run, stage uint64, idx int) *tcase {
 		}
 	}
 	return c
+}
+
+// index derives the model and the path lists from c.ents.
+func (c *tcase) index() {
+	c.model = gen.Model(c.ents)
+	c.tarBytes = gen.TarBytes(c.ents)
+	c.paths = c.model.Paths()
+	c.explicitCount = map[string]int{}
+	c.dirs, c.files, c.symlinks, c.rootEntry = nil, nil, nil, false
+	for _, e := range c.ents {
+		if e.Type == tar.TypeDir {
+			c.explicitCount[gen.Clean(e.Name)]++
+			if gen.Clean(e.Name) == "" {
+				c.rootEntry = true
+			}
+		}
+	}
+	for _, p := range c.paths {
+		n := c.model.Nodes[p]
+		switch n.Type {
+		case tar.TypeDir:
+			c.dirs = append(c.dirs, p)
+		case tar.TypeReg:
+			c.files = append(c.files, p)
+		case tar.TypeSymlink:
+			c.symlinks = append(c.symlinks, p)
+		}
+	}
 }
 
 func (c *tcase) describe() map[string]any {
